@@ -49,6 +49,21 @@ class Adapter(object):
     def draw(self, rng, name):
         return float(rng.uniform(0.5, 1.5))
 
+    def disturb_copy(self, rng):
+        """a copy of the object is taken and fixed / released on: the original is a different object"""
+        o = getattr(self, 'obj', None)
+        if o is None:
+            return
+        c = o.copy() if hasattr(o, 'copy') else copy.deepcopy(o)
+        names = self.names()
+        d = {}
+        for j in rng.choice(len(names), size=int(rng.integers(1, len(names) + 1)), replace=False):
+            d[names[j]] = None if rng.random() < 0.3 else self.draw(rng, names[j])
+        try:
+            c.fix_parameters(d)
+        except ValueError:
+            pass
+
 
 class RecEM(object):
     """mixin: records the parameters the wrapped error model receives"""
@@ -557,6 +572,8 @@ def gen_history(rng, names, ad, length):
         d = []
         for j in chosen:
             val = None if rng.random() < 0.35 else ad.draw(rng, names[j])
+            if val is not None and rng.random() < 0.08:
+                val = 0.0          # a parameter fixed at zero is fixed (zero is not "no value")
             d.append((names[j], val))
         if rng.random() < 0.15:
             d.append(('not-a-parameter', 1.0))
@@ -621,17 +638,25 @@ def compare(ctx, ad, ops_so_far, rng, inp):
     if len(free_names) == 0:
         ctx.branches.add('all-fixed')
         return
+    gerr = werr = None
     try:
         with np.errstate(all='ignore'):
             got = ad.evals(free)
     except Exception as e:  # noqa
-        ctx.spec('C08.eval_raises/' + ad.kind.split('/')[0], False, inp, {'raised': repr(e)[:200]})
+        gerr = e
+    try:
+        with np.errstate(all='ignore'):
+            want = ad.ref_evals(full, mask)
+    except Exception as e:  # noqa
+        werr = e
+    if gerr is not None or werr is not None:
+        # a refusal (e.g. sampling with a scale fixed at zero) must be the unfixed object's refusal too
+        ctx.spec('C08.eval_raises/' + ad.kind.split('/')[0], type(gerr) is type(werr), inp,
+                 {'reduced_object': repr(gerr)[:200], 'unfixed_at_substituted': repr(werr)[:200]})
         return
     seen = ad.full_seen()
     if seen is not None:
         ctx.agree('C08.full_vector_seen_by_wrapped_object', list(seen), mo[1], inp)
-    with np.errstate(all='ignore'):
-        want = ad.ref_evals(full, mask)
     finite = True
     for key in ('value', 'S1score'):
         if key in want and np.ndim(want[key]) == 0 and not math.isfinite(float(want[key])):
@@ -692,6 +717,11 @@ def run_history(ctx, chi, A, rng, length, ops=None):
             ctx.spec(TAG22 if is22 else 'C08.fix_raises/' + ad.kind.split('/')[0], False,
                      dict(inp, step=k + 1), {'raised': repr(e)[:200]})
             return
+        if rng.random() < 0.3:
+            try:
+                ad.disturb_copy(rng)
+            except Exception as e:  # noqa
+                ctx.spec('C08.copy_raises/' + ad.kind.split('/')[0], False, dict(inp, step=k + 1), {'raised': repr(e)[:200]})
         compare(ctx, ad, pre + ops[:k + 1], rng, dict(inp, step=k + 1))
 
 
